@@ -8,7 +8,7 @@
    - an enable register outside the block is either left alone, or first written with a proper sub-mask of its
      original value, always with sub-masks, and last with its original value (toggle_ok); an enable register that
      belongs to the block follows own_ok.
-   PARTIAL: the pin-mapping and wake-up builders have no generated theorem yet (DESIGN.md). *)
+   All 12 builder bodies have a generated theorem (side condition: shadow and request bytes below 256, a u8 typing fact). *)
 Require Import BMA.lib.Base BMA.lib.Reflect BMA.gen.GenTypes BMA.gen.GenPure BMA.lib.Prog BMA.gen.GenProg BMA.gen.GenMeta
                BMA.gen.GenLens BMA.lib.Run BMA.proofs.Generic BMA.proofs.Symex BMA.proofs.BuilderSpec BMA.proofs.Builders
                BMA.proofs.SymexLink BMA.proofs.BuilderCor BMA.spec.Datasheet BMA.spec.BuilderProps.
@@ -17,7 +17,7 @@ Open Scope N_scope.
 Theorem c08_no_read : forall A a n (k : list N -> prog A) d g j Q QF, ~ postx (Read a n k) d g j Q QF.
 Proof. intros. unfold postx. cbn. auto. Qed.
 
-Theorem c08_partial_entry_meaning : forall blk d reqf e, entry_ok blk d reqf e = true ->
+Theorem c08_entry_meaning : forall blk d reqf e, entry_ok blk d reqf e = true ->
   (In (jw_addr e) blk \/ In (jw_addr e) ENABLES)
   /\ (In (jw_addr e) blk -> ~ In (jw_addr e) ENABLES -> jw_val e = reqf (jw_addr e) /\ shv d (jw_addr e) <> reqf (jw_addr e)).
 Proof.
@@ -32,9 +32,9 @@ Proof.
 Qed.
 
 (* re-applying the current configuration: no entry can address the block (its value would have to differ from itself) *)
-Theorem c08_partial_reapply : forall blk d reqf nj, forallb (entry_ok blk d reqf) nj = true ->
+Theorem c08_reapply : forall blk d reqf nj, forallb (entry_ok blk d reqf) nj = true ->
   (forall a, In a blk -> reqf a = shv d a) -> forall e, In e nj -> In (jw_addr e) blk -> In (jw_addr e) ENABLES.
 Proof.
-  intros blk d reqf nj H Hsame e He Hb. rewrite forallb_forall in H. destruct (c08_partial_entry_meaning blk d reqf e (H e He)) as [_ M].
+  intros blk d reqf nj H Hsame e He Hb. rewrite forallb_forall in H. destruct (c08_entry_meaning blk d reqf e (H e He)) as [_ M].
   destruct (in_dec N.eq_dec (jw_addr e) ENABLES) as [I|I]; [exact I|]. destruct (M Hb I) as [_ Hne]. exfalso. apply Hne. symmetry. apply Hsame. exact Hb.
 Qed.
